@@ -23,7 +23,7 @@ func TestC18(t *testing.T) {
 	for i := 0; i < mon.Pick(120, 1000); i++ {
 		targets = append(targets, CustomTarget(i))
 	}
-	conns := mon.Pick(32, 200)
+	conns := mon.Pick(32, 1500)
 	var mu sync.Mutex
 	seenKey := map[string]string{}
 	seenRandom := map[string]string{}
